@@ -423,6 +423,69 @@ func c02TwoStructs(x *mc.Exec) {
 	x.R.Mark("nontrivial", mc.Hash(x.Choices()))
 }
 
+// c02EditedType: the type of soft resources is edited through its pointer (one field out, another
+// in, so that the number of fields stays the same; or only out; or only in) after values were set and
+// before anything is read again; the document then round-trips with the type as it is now.
+func c02EditedType(x *mc.Exec) {
+	edit := x.Choose(5, "edit")
+	coll := x.Bool("collection")
+	typ := docT.SoftType()
+	mk := func(id string, v int) *j.SoftResource {
+		r := &j.SoftResource{Type: &typ}
+		r.SetID(id)
+		r.Set("s", "v"+id)
+		r.Set("n", Ptr(v))
+		r.Set("one", "u1")
+		r.Set("many", []string{"u2", "u1"})
+		return r
+	}
+	rs := []*j.SoftResource{mk("a", 1), mk("b", 2)}
+	names := []string{"RemoveAttr(n)+AddAttr(nick)", "RemoveAttr(n)", "AddAttr(nick)", "RemoveRel(many)+AddRel(peers)", "RemoveAttr(s)+AddRel(peers)"}
+	switch edit {
+	case 0:
+		typ.RemoveAttr("n")
+		_ = typ.AddAttr(j.Attr{Name: "nick", Type: j.AttrTypeString})
+	case 1:
+		typ.RemoveAttr("n")
+	case 2:
+		_ = typ.AddAttr(j.Attr{Name: "nick", Type: j.AttrTypeString})
+	case 3:
+		typ.RemoveRel("many")
+		_ = typ.AddRel(j.Rel{FromType: "t", FromName: "peers", ToType: "u"})
+	case 4:
+		typ.RemoveAttr("s")
+		_ = typ.AddRel(j.Rel{FromType: "t", FromName: "peers", ToType: "u"})
+	}
+	schema := &j.Schema{}
+	_ = schema.AddType(typ.Copy())
+	_ = schema.AddType(docU.SoftType())
+	c := &DocCase{DataKind: "single", Schema: schema}
+	doc := &j.Document{PrePath: "https://x", RelData: AllRelData(schema)}
+	frag := []string{"t", "a"}
+	if coll {
+		col := &j.SoftCollection{}
+		col.SetType(&typ)
+		col.Add(rs[0])
+		col.Add(rs[1])
+		doc.Data, c.DataKind = col, "list"
+		c.Primary = []j.Resource{col.At(0), col.At(1)}
+		frag = []string{"t"}
+	} else {
+		doc.Data, c.Primary = rs[0], []j.Resource{rs[0]}
+	}
+	fields := map[string][]string{}
+	for _, t := range schema.Types {
+		fields[t.Name] = FieldNames(t)
+	}
+	c.Fields, c.Doc = fields, doc
+	c.URL = &j.URL{Fragments: frag, ResType: "t", IsCol: coll,
+		Params: &j.Params{Fields: fields, RelData: map[string][]string{}, SortingRules: []string{}, Include: [][]j.Rel{}}}
+	c.Desc = fmt.Sprintf("soft resources whose type was edited through its pointer (%s) after their values were set (collection: %v)", names[edit], coll)
+	x.Render(c.Desc)
+	x.R.Mark("nontrivial", mc.Hash(c.Desc))
+	c02RoundTrip(x, c, "C02:edited-type")
+}
+
 type c02Ctor struct {
 	name string
 	mk   func() j.Error
@@ -489,7 +552,7 @@ func c02Interleaved(x *mc.Exec) {
 func init() {
 	Register(&Prop{
 		ID:          "C02",
-		Rule:        "Engine A, all choices Full: the complete product 19 primary-data kinds (incl. a resource without ID and resources with one attribute of every kind at its smallest / largest value, soft and struct-backed) x 5 included lists (ids colliding across types and not, mixed implementations) x 4 metas (nil, {}, scalars, nested/array/null/escapes) x 3 error lists x 6 prefixes x 3 field selections x 2 relationship-data requests; plus every one of the 256 member subsets of one error object, all pairs and triples (with repetition, every order) of 6 representative errors, and errors together with data, every error constructor of the library x 4 argument strings (empty, plain, escape-needing, 40 multi-byte runes), errors whose source/links/meta members are empty strings, null or empty containers. and 16 sizes from 13 to 1001 (around powers of two, not divisible by small worker counts) x 3 collection implementations x {primary collection, included list}, ids in scrambled order, and two struct definitions of one type name (each in its own schema) used one after the other. and every ordered pair of 8 richer documents marshaled one after the other before the first payload is read back. Each document is marshaled and unmarshaled against the same schema; oracle written in the harness: kind of primary data, members in order by (type,id,selected values), included as a set keyed by (type,id), meta and error members as canonical JSON. Non-trivial = distinct marshaled payload",
+		Rule:        "Engine A, all choices Full: the complete product 19 primary-data kinds (incl. a resource without ID and resources with one attribute of every kind at its smallest / largest value, soft and struct-backed) x 5 included lists (ids colliding across types and not, mixed implementations) x 4 metas (nil, {}, scalars, nested/array/null/escapes) x 3 error lists x 6 prefixes x 3 field selections x 2 relationship-data requests; plus every one of the 256 member subsets of one error object, all pairs and triples (with repetition, every order) of 6 representative errors, and errors together with data, every error constructor of the library x 4 argument strings (empty, plain, escape-needing, 40 multi-byte runes), errors whose source/links/meta members are empty strings, null or empty containers. and 16 sizes from 13 to 1001 (around powers of two, not divisible by small worker counts) x 3 collection implementations x {primary collection, included list}, ids in scrambled order, and two struct definitions of one type name (each in its own schema) used one after the other, and soft resources whose type was edited through its pointer (5 edits, incl. one field out and another in) between setting their values and marshaling. and every ordered pair of 8 richer documents marshaled one after the other before the first payload is read back. Each document is marshaled and unmarshaled against the same schema; oracle written in the harness: kind of primary data, members in order by (type,id,selected values), included as a set keyed by (type,id), meta and error members as canonical JSON. Non-trivial = distinct marshaled payload",
 		Assumptions: []string{"an Identifier document may come back as a single field-less resource with the same type and id (JSON:API cannot tell them apart); weaker reading chosen deliberately", "empty map == absent for meta / links / source"},
 		Harnesses: []Harness{
 			{Name: "C02/docs", Body: c02Docs, Dev: func() int { return 1 }, ShardDepth: 3},
@@ -497,6 +560,7 @@ func init() {
 			{Name: "C02/interleaved", Body: c02Interleaved},
 			{Name: "C02/large", Body: c02Large},
 			{Name: "C02/two-structs", Body: c02TwoStructs},
+			{Name: "C02/edited-type", Body: c02EditedType},
 		},
 	})
 }
